@@ -138,6 +138,17 @@ inline std::string latchRules(const Regs &a, const Op &o, const Regs &b, Inst &I
     }
     bool rise = !(a.r[SCPI_REG_STB] & 0x40) && (b.r[SCPI_REG_STB] & 0x40);
     if (rise && srq == 0) return "MSS rose from 0 to 1 without a service-request callback";
+    // the same with MSS as it is defined (from the event, enable and SRE registers and the queue) rather than as the status
+    // byte happens to show it: a request that is due must be announced even if the summary that feeds MSS was not updated
+    auto mssDef = [](const Regs &x) {
+        int stb = x.r[SCPI_REG_STB] & ~(0x20 | 0x80 | 0x08 | 0x04 | 0x40);
+        if (x.r[SCPI_REG_ESR] & x.r[SCPI_REG_ESE]) stb |= 0x20;
+        if (x.r[SCPI_REG_OPER] & x.r[SCPI_REG_OPERE]) stb |= 0x80;
+        if (x.r[SCPI_REG_QUES] & x.r[SCPI_REG_QUESE]) stb |= 0x08;
+        if (x.count > 0) stb |= 0x04;
+        return (stb & x.r[SCPI_REG_SRE] & ~0x40) != 0;
+    };
+    if (!mssDef(a) && mssDef(b) && srq == 0) return "a service request became due (an enabled summary condition arose with its SRE bit set) without a service-request callback";
     return "";
 }
 
